@@ -75,6 +75,13 @@ class CreateUE(Stream):
         return "(%s, %d, %s, (%d,%d,%s))" % (C.cstr(c["imsi"]), c["start"], pairs, o.get("ea", 0), o.get("ia", 0), C.cN(bytes.fromhex(o.get("cap", ""))))
 
     def direct_check(self, c, o):
+        # the first UE of the population created just before this one, read again now (the harness keeps it): a UE context
+        # must not change because other UEs are created
+        pn, was = o.get("prev_now"), getattr(self, "_prev", None)
+        if "panic" not in o and o.get("supis"):
+            self._prev = {"supi": o["supis"][0], "ran": o["ranids"][0], "k": o.get("k"), "opc": o.get("opc"), "op": o.get("op"), "ea": o.get("ea"), "ia": o.get("ia")}
+        if pn is not None and was is not None and pn != was:
+            return "a UE context changed when later UEs were created: was %r, now %r" % (was, pn)
         if "panic" in o:
             return "CreateUE panicked: " + o["panic"]
         if c["kind"] == "malformed":
